@@ -14,7 +14,13 @@ Oracle handlers of property C11.
   alone, one after the other (stdout and every file written).
 * `cli_seeded <stdin> <argv…>`: the bytes a seeded command must print, from the C10 programs run on the
   Go generator replica seeded as `cmd/root.go` seeds it — ties the `--seed` handling, the order of the
-  draws in the command loops and the FASTA writer to the model.
+  draws in the command loops and the FASTA writer to the model.  Five commands with a fixed argument
+  layout (shuffle seqs, sample seqs, sample sites ×2, mutate snvs) and, with flags in any order and
+  defaults read from the flag registrations (`seededFlags`): shuffle sites / swap / recomb / rogue,
+  mutate gaps.
+* `cli_libf <stdin> <files> sample rarefy …` / `… build seqboot …` (`seededFiles`): the same for the two
+  seeded commands that need a side file (counts) or write files only (replicates); every other
+  `cli_libf` case is left to the handlers of the other properties.
 -/
 namespace Gv.Oracle.DetOps
 open Gv Gv.Oracle Gv.Model Gv.Model.Cli
